@@ -596,6 +596,46 @@ pub fn rule_from_ident<'a>(cddl: &'a CDDL, ident: &Identifier) -> Option<&'a Rul
   })
 }
 
+/// Operand of a range or control operator with redundant parentheses removed:
+/// `(uint) .size (2)` and `0..(10)` mean the same as without parentheses
+pub fn strip_operand_parens<'a, 'b>(mut t2: &'b Type2<'a>) -> &'b Type2<'a> {
+  while let Type2::ParenthesizedType { pt, .. } = t2 {
+    match pt.type_choices.as_slice() {
+      [tc] if tc.type1.operator.is_none() => t2 = &tc.type1.type2,
+      _ => break,
+    }
+  }
+
+  t2
+}
+
+/// Range bound with parentheses removed and plain rule references (`max = 10`,
+/// `0..max`) followed to the literal they name
+pub fn resolve_range_operand<'b>(cddl: &'b CDDL<'b>, t2: &'b Type2<'b>) -> &'b Type2<'b> {
+  let mut t2 = strip_operand_parens(t2);
+  for _ in 0..16 {
+    let Type2::Typename {
+      ident,
+      generic_args: None,
+      ..
+    } = t2
+    else {
+      break;
+    };
+    let Some(Rule::Type { rule, .. }) = rule_from_ident(cddl, ident) else {
+      break;
+    };
+    match rule.value.type_choices.as_slice() {
+      [tc] if tc.type1.operator.is_none() && rule.generic_params.is_none() => {
+        t2 = strip_operand_parens(&tc.type1.type2)
+      }
+      _ => break,
+    }
+  }
+
+  t2
+}
+
 /// Find text values from a given identifier
 pub fn text_value_from_ident<'a>(cddl: &'a CDDL, ident: &Identifier) -> Option<&'a Type2<'a>> {
   cddl.rules.iter().find_map(|r| match r {
